@@ -73,10 +73,37 @@ def fail_items(rng, n):
     return items
 
 
+def loop_items_absent(rng):
+    """a loop whose items come from an optional expression that is absent in the run (the loop that would produce them is
+    disabled): the required input of the consuming loop is missing at run time - an error, never a crash"""
+    import check_c13
+    items = []
+    sub2 = {'input_schema': {'root': 'In2', 'objects': {'In2': {'id': 'In2', 'properties': {
+                'tok': {'type': {'type_id': 'string'}, 'required': True}, 'n': {'type': {'type_id': 'integer'}, 'required': True}}}}},
+            'steps': {'w2': {'kind': 'plugin', 'pstep': 'work', 'src': 'w2', 'fields': {'input': tmap({'id': ref('input.tok')})}}},
+            'outputs': {'success': tmap({'tok': ref('steps.w2.outputs.success.tok')})}}
+    for wait in (True, False):
+        it = check_c13.loop_item(rng, 2, 1, ['success', 'success'])
+        wf = it['wf']
+        wf['steps']['loop']['fields']['enabled'] = ref('input.flag')
+        wf['steps']['consumer'] = {'kind': 'foreach', 'workflow': 'sub2.yaml',
+                                   'fields': {'items': {'t': 'opt', 'wait': wait, 'e': ref('steps.loop.outputs.success.data')}}}
+        wf['outputs'] = {'success': tmap({'d': ref('steps.consumer.outputs.success.data')}), 'failure': tmap({'e': ref('steps.consumer.failed.error')})}
+        it['subwfs']['sub2.yaml'] = sub2
+        it['script']['w2'] = {'exec': {'out': 'success'}}
+        it['input'] = {'x': 'x', 'n': 1, 'flag': False}
+        it['oc'] = {}
+        it.pop('expect_items', None)
+        it.update(nomeaning=True, kind='loop-items-from-absent-%s-optional' % ('wait' if wait else 'soft'), must_error=wait, schedule=None)
+        it['at'] = it['kind']
+        items.append(it)
+    return items
+
+
 def run(ctx):
     prof = dict(max_steps=3, p_tag=0.1, engine_outputs=True, p_crash=0.2, p_deployfail=0.15, p_error=0.2)
     n = 24 if ctx.quick else 180
-    items, _, _ = family.run_family_check(ctx, 'C07', n_quick=16, n_thorough=120, profile=prof, extra_items=lambda rng: fail_items(rng, n))
+    items, _, _ = family.run_family_check(ctx, 'C07', n_quick=16, n_thorough=120, profile=prof, extra_items=lambda rng: fail_items(rng, n) + loop_items_absent(rng))
     import engine_check
     for it in items:
         res = it.get('_result')
